@@ -11,7 +11,11 @@ import (
 // Proxy is a byte-exact TCP forwarder with fault injection and counting.
 type Proxy struct {
 	ln     net.Listener
+	addr   string
 	target string
+	down   atomic.Bool // listener closed: dials are refused by the kernel
+
+	TargetDialFailures atomic.Int64
 
 	mu      sync.Mutex
 	conns   map[*pconn]struct{}
@@ -62,23 +66,23 @@ func NewProxy(target string) (*Proxy, error) {
 	if err != nil {
 		return nil, err
 	}
-	p := &Proxy{ln: ln, target: target, conns: map[*pconn]struct{}{}}
-	go p.loop()
+	p := &Proxy{ln: ln, addr: ln.Addr().String(), target: target, conns: map[*pconn]struct{}{}}
+	go p.loop(ln)
 	return p, nil
 }
 
-func (p *Proxy) Addr() string { return p.ln.Addr().String() }
+func (p *Proxy) Addr() string { return p.addr }
 
 func (p *Proxy) SetTarget(t string) { p.mu.Lock(); p.target = t; p.mu.Unlock() }
 
-func (p *Proxy) loop() {
+func (p *Proxy) loop(ln net.Listener) {
 	for {
-		c, err := p.ln.Accept()
+		c, err := ln.Accept()
 		if err != nil {
 			return
 		}
 		p.Accepts.Add(1)
-		if p.refuse.Load() {
+		if p.refuse.Load() || p.down.Load() {
 			if tc, ok := c.(*net.TCPConn); ok {
 				tc.SetLinger(0)
 			}
@@ -95,6 +99,16 @@ func (p *Proxy) serve(c net.Conn) {
 	p.mu.Unlock()
 	s, err := net.DialTimeout("tcp", target, 2*time.Second)
 	if err != nil {
+		p.TargetDialFailures.Add(1)
+		c.Close()
+		return
+	}
+	if p.refuse.Load() || p.down.Load() {
+		// an outage began while this connection was being set up
+		s.Close()
+		if tc, ok := c.(*net.TCPConn); ok {
+			tc.SetLinger(0)
+		}
 		c.Close()
 		return
 	}
@@ -189,14 +203,49 @@ func (p *Proxy) Open() int {
 	return n
 }
 
-// Outage makes the server unreachable: new connections are reset and established ones are killed.
+// Outage makes the server unreachable: the listener is closed (dials are refused, so clients see
+// real dial failures) and established connections are killed.
 func (p *Proxy) Outage(reset bool) {
+	p.mu.Lock()
+	if !p.down.Swap(true) {
+		p.ln.Close()
+	}
+	p.mu.Unlock()
+	p.KillAll(reset)
+	// connections that were being set up during the switch
+	time.Sleep(200 * time.Microsecond)
+	p.KillAll(reset)
+}
+
+// OutageSoft keeps the listener but closes every new connection right after accepting it (dials
+// succeed, the connection dies at once) and kills the established ones.
+func (p *Proxy) OutageSoft(reset bool) {
 	p.refuse.Store(true)
 	p.KillAll(reset)
 }
 
-// Restore makes the server reachable again.
-func (p *Proxy) Restore() { p.refuse.Store(false) }
+// Restore makes the server reachable again on the same address.
+func (p *Proxy) Restore() error {
+	p.refuse.Store(false)
+	p.mu.Lock()
+	defer p.mu.Unlock()
+	if !p.down.Load() {
+		return nil
+	}
+	var err error
+	for i := 0; i < 200; i++ {
+		var ln net.Listener
+		ln, err = net.Listen("tcp", p.addr)
+		if err == nil {
+			p.ln = ln
+			p.down.Store(false)
+			go p.loop(ln)
+			return nil
+		}
+		time.Sleep(5 * time.Millisecond)
+	}
+	return err
+}
 
 // KillAll kills every established connection.
 func (p *Proxy) KillAll(reset bool) {
@@ -215,6 +264,8 @@ func (p *Proxy) Close() {
 	if p.closed.Swap(true) {
 		return
 	}
+	p.mu.Lock()
 	p.ln.Close()
+	p.mu.Unlock()
 	p.KillAll(true)
 }
